@@ -1,5 +1,6 @@
 import RedisVerif.Driver.C07
 import RedisVerif.Driver.C19
+import RedisVerif.Driver.C18
 
 open RedisVerif.Driver
 
@@ -23,4 +24,5 @@ def main (args : List String) : IO UInt32 := do
   match args with
   | ["C07"] => loop stdin stdout C07.step; return 0
   | ["C19"] => loopState stdin stdout C19.St.init C19.step; return 0
+  | ["C18"] => loopState stdin stdout C18.St.init C18.step; return 0
   | _ => IO.eprintln "usage: rvdriver <property-id> < ops"; return 2
